@@ -34,7 +34,7 @@ prop("C19",
                   "all-zero data is not generated (sigma^2 = 0 makes Thomson's formula 0/0)"],
      title="Multitaper estimates are weighted means of tapered periodograms")
 
-NWS = [2, 2.0, 2.5, 3, 3.0, 4, 4.0]
+NWS = [2.5, 3, 4, 2, 3.0, 4.0, 2.0]
 
 
 # --------------------------------------------------------------------------
@@ -43,14 +43,14 @@ NWS = [2, 2.0, 2.5, 3, 3.0, 4, 4.0]
 @st.composite
 def _data(draw, cplx):
     N = draw(st.one_of(st.integers(16, 96), st.integers(16, 1024), st.sampled_from([16, 17, 255, 256, 257, 1023, 1024])))
-    mode = draw(st.sampled_from(["any", "any", "any", "quiet_tones"]))
+    mode = draw(st.sampled_from(["any", "any", "any", "any", "quiet_tones"]))
     dtype = "complex" if cplx else "real"
     if mode == "quiet_tones":
         nt = draw(st.integers(1, 3))
         tones = [[draw(st.floats(-0.5 if cplx else 0.02, 0.5 if cplx else 0.48)),
                   draw(st.floats(0.2, 1.0)), draw(st.floats(0, 6.283))] for _ in range(nt)]
         return {"kind": "tones", "n": N, "complex": cplx, "seed": draw(gen.seeds), "tones": tones, "noise": 1.0}
-    return draw(gen.signal(dtype=dtype, kinds=("noise", "noise", "ar", "ar", "int", "tones", "tones", "trend", "const", "dyn"), n=N))
+    return draw(gen.signal(dtype=dtype, kinds=("trend", "noise", "ar", "int", "tones", "const", "dyn", "noise", "ar"), n=N))
 
 
 def _no_dominant_line(d):
@@ -139,7 +139,7 @@ def _fold(full, nfft, real):
 # --------------------------------------------------------------------------
 # sub-checks
 # --------------------------------------------------------------------------
-@sub("C19.sk", strategy=mt_case(), quick=300, thorough=6000,
+@sub("C19.sk", strategy=mt_case(), quick=500, thorough=6000,
      doc="pmtm: Sk has shape (k, NFFT) and equals DFT_NFFT(taper_i * x) (matrix DFT for NFFT<=512); third item == dpss eigenvalues")
 def c19_sk(ctx, case):
     x = gen.realise(case["x"])
@@ -160,7 +160,7 @@ def c19_sk(ctx, case):
     ctx.close(np.asarray(ev), np.asarray(lam), "returned eigenvalues vs dpss", rtol=0, atol=1e-12)
 
 
-@sub("C19.weights", strategy=mt_case(methods=("unity", "eigen")), quick=300, thorough=6000,
+@sub("C19.weights", strategy=mt_case(methods=("unity", "eigen")), quick=500, thorough=6000,
      doc="pmtm weights: ones (k x 1) for 'unity', lambda_i/(i+1) (k x 1) for 'eigen'")
 def c19_weights(ctx, case):
     x = gen.realise(case["x"])
@@ -235,14 +235,14 @@ def _adapt_body(ctx, case):
               sig={"clause": "converged"})
 
 
-@sub("C19.adapt_real", strategy=mt_case(methods=("adapt",), dtype="real", kmin=2), quick=300, thorough=6000,
+@sub("C19.adapt_real", strategy=mt_case(methods=("adapt",), dtype="real", kmin=2), quick=500, thorough=12000,
      doc="'adapt', real data: weights (NFFT x k) real, in [0,1/lambda_i], Thomson's formula for one common S*>=0; "
          "S* == sum(w|Sk|^2)/sum(w) within 2e-2 sigma^2 for data without a dominant line")
 def c19_adapt_real(ctx, case):
     _adapt_body(ctx, case)
 
 
-@sub("C19.adapt_cplx", strategy=mt_case(methods=("adapt",), dtype="complex", kmin=2), quick=300, thorough=6000,
+@sub("C19.adapt_cplx", strategy=mt_case(methods=("adapt",), dtype="complex", kmin=2), quick=500, thorough=12000,
      doc="'adapt', complex data: same clauses as C19.adapt_real")
 def c19_adapt_cplx(ctx, case):
     _adapt_body(ctx, case)
@@ -283,27 +283,27 @@ def _class_body(ctx, case):
               % (meth, "doubled/folded" if real else "two-sided"), rtol=1e-9, atol=1e-9 * float(np.max(exp)))
 
 
-@sub("C19.class", strategy=mt_case(methods=("unity", "eigen"), class_level=True), quick=300, thorough=6000,
+@sub("C19.class", strategy=mt_case(methods=("unity", "eigen"), class_level=True), quick=500, thorough=6000,
      doc="MultiTapering.psd ('unity'/'eigen') == mean_i weight_i |DFT(taper_i x)|^2, doubled and folded for real data; real, >= 0")
 def c19_class(ctx, case):
     _class_body(ctx, case)
 
 
 @sub("C19.class_adapt_real", strategy=mt_case(methods=("adapt",), dtype="real", class_level=True, kmin=2),
-     quick=200, thorough=4000,
+     quick=300, thorough=6000,
      doc="MultiTapering.psd ('adapt', real data) == mean_i w_i(f) |DFT(taper_i x)|^2 with pmtm's weights, doubled and folded; real, >= 0")
 def c19_class_adapt_real(ctx, case):
     _class_body(ctx, case)
 
 
 @sub("C19.class_adapt_cplx", strategy=mt_case(methods=("adapt",), dtype="complex", class_level=True, kmin=2),
-     quick=200, thorough=4000,
+     quick=300, thorough=6000,
      doc="MultiTapering.psd ('adapt', complex data) == mean_i w_i(f) |DFT(taper_i x)|^2 with pmtm's weights; real, >= 0")
 def c19_class_adapt_cplx(ctx, case):
     _class_body(ctx, case)
 
 
-@sub("C19.pre", strategy=mt_case(class_level=True), quick=300, thorough=6000,
+@sub("C19.pre", strategy=mt_case(class_level=True), quick=500, thorough=6000,
      doc="precomputed tapers: pmtm(x, e=, v=) and MultiTapering(x, e=, v=) equal the results with NW/k (all methods)")
 def c19_pre(ctx, case):
     x = gen.realise(case["x"])
